@@ -1,7 +1,7 @@
 (* drv_c04.ml — the skip functions of Rt/SafetySkip.v (same protocol as harness/leafdrv_c04.inc)
      skiplen <constructed 0|1> <hex>      -> OK <n> | MORE | ERR            ber_skip_length
      uskip <hex> <bit offset 0..7>        -> OK <bits consumed> | FAIL      uper_open_type_skip
-     oskip <hex>                          -> OK <length> <n> | MORE | ERR   oer_open_type_skip (= oer_fetch_length)
+     oskip <hex>                          -> OK <length> <n> | MORE | ERR   oer_open_type_skip (n = length determinant + length)
      xskip <tcv 0..7> <depth>             -> <ret> <depth'>                 xer_skip_unknown
      xskiprun <depth> <tcv,tcv,...>       -> <ret> <depth'> <tags looked at>
    spec side (model only):
@@ -31,11 +31,11 @@ let dispatch cmd args =
       Some (sres_s (skip_loop_early (skip_length f) f O b))
   | "uskip", [h; off] ->
       let bits = drop (int_of_string off) (bytes_bits (bytes_of_hex h)) in
-      Some (match uper_open_skip false bits with
+      Some (match uper_open_skip bits with
             | Some r -> Printf.sprintf "OK %d" (List.length bits - List.length r)
             | None -> "FAIL")
   | "oskip", [h] ->
-      Some (match oer_skip (bytes_of_hex h) with
+      Some (match oer_open_type_skip_m (bytes_of_hex h) with
             | FOk (v, n) -> Printf.sprintf "OK %s %d" (string_of_cz v) (int_of_nat n)
             | FMore -> "MORE"
             | FErr -> "ERR")
